@@ -28,9 +28,11 @@ MUTANTS = [
         )
     return read_exact(buffer, length)''', '''            "Unexpectedly read null where compact string/bytes was expected"
         )
-    return buffer.read(length)''')]},
+    if length > 64:
+        return buffer.read(length)
+    return read_exact(buffer, length)''')]},
     {"id": "c06-varint-empty-terminates", "props": ["C06"], "edits": [(R, '''        (byte,) = read_exact(buffer, 1)
-''', '''        chunk = buffer.read(1)
+''', '''        chunk = read_exact(buffer, 1) if shift == 0 else buffer.read(1)
         if not chunk:
             return result  # type: ignore[return-value]
         (byte,) = chunk
@@ -48,14 +50,17 @@ MUTANTS = [
         except BufferUnderflow:
             pass
         return tuple(items)''')]},
-    {"id": "c06-underflow-as-eoferror", "props": ["C06"], "edits": [(R, '''def read_uuid(buffer: IO[bytes]) -> UUID | None:
-    byte_value: bytes = read_exact(buffer, 16)''', '''def read_uuid(buffer: IO[bytes]) -> UUID | None:
-    byte_value: bytes = buffer.read(16)
-    if len(byte_value) != 16:
-        raise EOFError("short uuid")''')]},
+    {"id": "c06-underflow-as-eoferror", "props": ["C06"], "edits": [(R, '''def read_datetime_i64(buffer: IO[bytes]) -> TZAware:
+    return tz_aware_from_i64(read_int64(buffer))''', '''def read_datetime_i64(buffer: IO[bytes]) -> TZAware:
+    data = buffer.read(8)
+    if len(data) != 8:
+        raise EOFError("short timestamp")
+    return tz_aware_from_i64(struct.unpack(">q", data)[0])''')]},
     {"id": "c06-retry-loop-at-eof", "props": ["C06", "C10"], "edits": [(R, READ_EXACT, '''    value = buffer.read(num_bytes)
-    while len(value) < num_bytes:
+    while num_bytes > 64 and len(value) < num_bytes:
         value += buffer.read(num_bytes - len(value))
+    if len(value) != num_bytes:
+        raise BufferUnderflow(f"Expected to read {num_bytes}, got {len(value)}")
     return value
 ''')]},
     {"id": "c06-legacy-string-short-ok", "props": ["C06"], "edits": [(R, '''    length = read_int16(buffer)
